@@ -3,7 +3,7 @@
 # report files that exist on both sides and differ, list the worker's fix commits.
 ID=$1; SRC=/tmp/build_$ID/verif
 cd /verif
-for d in coq harness/props claims findings design ocaml/handlers; do
+for d in coq harness claims findings design ocaml/handlers; do
   mkdir -p $d
   rsync -a --ignore-existing --exclude '*.vo' --exclude '*.vok' --exclude '*.vos' --exclude '*.glob' --exclude '.*.aux' --exclude 'Makefile*' --exclude '.Makefile.d' --exclude '_CoqProject' --exclude 'Extract.v' --exclude '.lia.cache' --exclude '.nia.cache' --exclude '__pycache__' --exclude '_dbg_tmp*' $SRC/$d/ $d/
 done
